@@ -828,6 +828,9 @@ func (s *scen) versionWindow() {
 }
 
 func run(b *harness.B) {
+	if b.Batch == 0 {
+		directedEdges(b)
+	}
 	nNets := b.Pick(10, 24)
 	for i := 0; i < nNets; i++ {
 		fam := []string{"compressed", "v2genesis", "scrambled", "v1only", "compressed", "testnet", "legacywin"}[(b.Batch+i)%7]
